@@ -72,6 +72,94 @@ type Ctx struct {
 	unspec   map[string]int64
 }
 
+// ---- non-termination watchdog ------------------------------------------------------------
+//
+// A worker goroutine stuck inside the library (an endless loop a change introduced) can be neither
+// recovered nor killed, and would make the check hang. Every Range worker therefore notes which index
+// it is working on and when (in ticks of a coarse clock); a monitor reports the case as a violation
+// ("the call does not return") once it has been running for VERIF_HANG_S seconds (default 120), writes
+// the evidence and ends the process with status 1. Hand-rolled worker loops use Track/Untrack.
+
+type wslot struct {
+	since atomic.Int64 // tick at which the current case started; 0 = idle
+	idx   atomic.Int64
+	rng   atomic.Int64
+	desc  atomic.Pointer[func() string]
+}
+
+var (
+	wslots  [512]wslot
+	wtick   atomic.Int64
+	rangeNo atomic.Int64
+	slotSeq atomic.Int64
+)
+
+// Track notes that the calling worker (slot w, from NewSlot) starts a case; desc may be nil.
+func Track(w int, idx int64, desc func() string) {
+	s := &wslots[w%len(wslots)]
+	s.idx.Store(idx)
+	if desc != nil {
+		s.desc.Store(&desc)
+	} else {
+		s.desc.Store(nil)
+	}
+	s.since.Store(wtick.Load() + 1)
+}
+
+// Untrack notes that the worker is idle.
+func Untrack(w int) { wslots[w%len(wslots)].since.Store(0) }
+
+// NewSlot hands out a watchdog slot for a hand-rolled worker goroutine.
+func NewSlot() int { return int(slotSeq.Add(1)-1) % len(wslots) }
+
+func (c *Ctx) watchdog() {
+	limit := int64(120)
+	if v, err := strconv.Atoi(os.Getenv("VERIF_HANG_S")); err == nil && v > 0 {
+		limit = int64(v)
+	}
+	for {
+		time.Sleep(time.Second)
+		now := wtick.Add(1)
+		for w := range wslots {
+			s := &wslots[w]
+			since := s.since.Load()
+			if since == 0 || now-since < limit {
+				continue
+			}
+			idx := s.idx.Load()
+			time.Sleep(50 * time.Millisecond)
+			if s.since.Load() != since || s.idx.Load() != idx {
+				continue // it moved on after all
+			}
+			in := fmt.Sprintf("case %d of enumeration #%d of this check (the enumerations are deterministic)", idx, s.rng.Load())
+			if d := s.desc.Load(); d != nil {
+				func() {
+					defer func() { recover() }()
+					in = (*d)() + " — " + in
+				}()
+			}
+			buf := make([]byte, 1<<20)
+			buf = buf[:runtime.Stack(buf, true)]
+			site := "unknown"
+			for _, l := range strings.Split(string(buf), "\n") {
+				if strings.HasPrefix(l, "github.com/insomniacslk/dhcp/") {
+					site = strings.TrimPrefix(l, "github.com/insomniacslk/dhcp/")
+					if i := strings.IndexByte(site, '('); i > 0 {
+						site = site[:i]
+					}
+					break
+				}
+			}
+			c.Report(Violation{Fingerprint: "non-termination|" + site, Order: idx, Scope: "watchdog", Input: in,
+				Observed: fmt.Sprintf("a library call made for this case has not returned after %d s (innermost library frame of a running goroutine: %s)", limit, site),
+				Expected: "every call returns (a value or an error)",
+				Explain:  "the worker goroutine cannot be stopped; the run ends here with what was checked so far"})
+			c.capped.Store(true)
+			os.Exit(c.Finish())
+		}
+	}
+}
+
 func New(prop, tier, level string) *Ctx {
 	seed, _ := strconv.ParseInt(os.Getenv("VERIF_SEED"), 10, 64)
 	c := &Ctx{Prop: prop, Tier: tier, Level: level, Seed: seed, Start: time.Now(),
@@ -86,6 +174,7 @@ func New(prop, tier, level string) *Ctx {
 			c.Budget = time.Duration(n) * time.Second
 		}
 	}
+	go c.watchdog()
 	return c
 }
 
@@ -199,10 +288,15 @@ func (c *Ctx) Range(n int64, f func(i int64)) bool {
 	var wg sync.WaitGroup
 	complete := atomic.Bool{}
 	complete.Store(true)
+	rno := rangeNo.Add(1)
 	for k := int64(0); k < w; k++ {
 		wg.Add(1)
+		slot := &wslots[NewSlot()]
 		go func() {
 			defer wg.Done()
+			defer slot.since.Store(0)
+			slot.rng.Store(rno)
+			slot.desc.Store(nil)
 			for {
 				lo := next.Add(chunk) - chunk
 				if lo >= n {
@@ -217,8 +311,11 @@ func (c *Ctx) Range(n int64, f func(i int64)) bool {
 					hi = n
 				}
 				for i := lo; i < hi; i++ {
+					slot.idx.Store(i)
+					slot.since.Store(wtick.Load() + 1)
 					f(i)
 				}
+				slot.since.Store(0)
 				c.evals.Add(hi - lo)
 			}
 		}()
@@ -421,14 +518,14 @@ func (c *Ctx) writeEvidence(newViol, knownViol int, vlist []map[string]any) {
 		cov[k] = v
 	}
 	ev := map[string]any{
-		"property_id": c.Prop,
-		"tier":        c.Tier,
-		"seed":        c.Seed,
-		"level":       c.Level,
-		"coverage":    cov,
-		"assumptions": c.assume,
-		"wall_s":      time.Since(c.Start).Seconds(),
-		"violations":  newViol,
+		"property_id":             c.Prop,
+		"tier":                    c.Tier,
+		"seed":                    c.Seed,
+		"level":                   c.Level,
+		"coverage":                cov,
+		"assumptions":             c.assume,
+		"wall_s":                  time.Since(c.Start).Seconds(),
+		"violations":              newViol,
 		"known_findings_reported": knownViol,
 	}
 	b, _ := json.MarshalIndent(ev, "", " ")
